@@ -58,6 +58,12 @@ def build_archives(rng, tmp, thorough):
     mk("multi", [[("a.txt", "file", content(100)), ("d", "dir", None), ("d/b.bin", "file", content(200))],
                  [("d/c.txt", "file", content(30)), ("x", "dir", None), ("x/one", "file", content(64)), ("x/two", "file", content(65))],
                  [("late", "file", content(10))]], filters=[{"id": arclib.FILTER_COPY}])
+    # a stored (Copy) solid folder whose members are larger than the decoder's 1 MiB read-ahead: what is skipped between
+    # two selected members reaches beyond what has been read ahead
+    mk("solid-stored-big", [[("s/a.bin", "file", content(1_300_000)), ("s/b.bin", "file", content(900_000)), ("s/c.bin", "file", content(1_700_000)),
+                             ("s/d.bin", "file", content(300)), ("s/e.bin", "file", content(1_200_000))]], filters=[{"id": arclib.FILTER_COPY}])
+    mk("solid-lzma2-big", [[("s/a.bin", "file", content(1_300_000)), ("s/b.bin", "file", content(900_000)), ("s/c.bin", "file", content(1_100_000))]],
+       filters=[{"id": arclib.FILTER_LZMA2, "preset": 0}])
     mk("multi-bz2", [[("p/q/r.bin", "file", content(500)), ("p", "dir", None), ("p/q", "dir", None)], [("p/q/s.bin", "file", content(20)), ("t", "file", content(1))]],
        filters=[{"id": arclib.FILTER_BZIP2}])
     # reference-written: empty files as empty-stream entries between data members, two folders
